@@ -100,6 +100,30 @@ def run (toks : List String) : String :=
             | .outOfFuel s => outStr "fuel" s
       | _ => "bad-op"
     | _, _, _, _, _, _ => "bad-op"
+  -- HB status user maxd mind n (x y z)*n : reb_run_heartbeat on n real particles -> new status
+  | "HB" :: status :: user :: maxd :: mind :: n :: rest =>
+    match status.toInt?, n.toNat? with
+    | some status, some n =>
+      let rec vecs : Nat → List String → List (V3 Float)
+        | 0, _ => []
+        | k + 1, x :: y :: z :: r => ⟨fl x, fl y, fl z⟩ :: vecs k r
+        | _, _ => []
+      let ps := vecs n rest
+      let s : Sim Float := { t := 0.0, dt := 0.0, dtLastDone := 0.0, status := status, exactFinish := 1, stepsDone := 0,
+                             nOdes := 0, isBS := false, syncs := 0, hist := [] }
+      let s' := runHeartbeat s (heartbeatFlags (user == "1") (fl maxd) (fl mind) ps)
+      s!"{s'.status}"
+    | _, _ => "bad-op"
+  -- CE t dt dld status exact tmax tmaxinf lastfull mask:n nOdes isBS : one reb_check_exit -> ret|blocked status dt lastfull syncs
+  | ["CE", t, dt, dld, status, exact, tmax, tmaxinf, lf, fm, nOdes, isBS] =>
+    match status.toInt?, exact.toInt?, nOdes.toNat? with
+    | some status, some exact, some nOdes =>
+      let s : Sim Float := { t := fl t, dt := fl dt, dtLastDone := fl dld, status := status, exactFinish := exact, stepsDone := 0,
+                             nOdes := nOdes, isBS := isBS == "1", syncs := 0, hist := [] }
+      match checkExit s (fl tmax) (tmaxinf == "1") (fl lf) (flagsOf fm) with
+      | .ret s' lf' => s!"ret {s'.status} {hx s'.dt} {hx lf'} {s'.syncs}"
+      | .blocked s' => s!"blocked {s'.status} {hx s'.dt} {hx (fl lf)} {s'.syncs}"
+    | _, _, _ => "bad-op"
   | ["consts"] => s!"{hx (ScalarS.c1em12 : Float)} {hx (ScalarS.c1em200 : Float)}"
   | _ => "bad-op"
 
